@@ -261,6 +261,7 @@ def check(run):
     check_fsm_guard(run)
     check_library_loops(run)
     check_library_wrong_params(run)
+    check_no_event_during_init(run)
     for c, o, ch in res:
         run.count('init_' + str(o['init_err']))
         for t in o['tops']:
@@ -452,6 +453,61 @@ def check_library_wrong_params(run, only=None):
                               'output_missing_item') else name), concrete=True)
 
 
+def check_no_event_during_init(run, only=None):
+    """'a conditional event resolving to "no event" ... never stop the simulation' - also when it is
+    addressed to a block that is not initialised yet (sent from the initialisation of an earlier block),
+    whatever add-ons the destination has (persistent state with a storage, sync_state on/off)."""
+    import asyncio
+    from . import vloop
+    for name, pers, sync in (('plain', False, True), ('persistent', True, True), ('persistent_nosync', True, False)):
+        if only is not None and name != only:
+            continue
+        obs = dict(started=None, error=None, output=None, follow=None, harness=None)
+
+        async def main(loop, pers=pers, sync=sync, obs=obs):
+            edzed.reset_circuit()
+            circuit = edzed.get_circuit()
+            circuit.set_persistent_data({})
+            edzed.Input('first', initdef=0, on_output=edzed.Event('dest', edzed.EventCond('put', None)))
+            dest = edzed.Input('dest', initdef=5, persistent=pers, sync_state=sync)
+            asyncio.create_task(circuit.run_forever())
+            try:
+                await circuit.wait_init()
+                obs['started'] = True
+            except Exception as err:             # noqa
+                obs['started'] = False
+            obs['error'] = None if circuit.error is None else repr(circuit.error)[:200]
+            obs['output'] = dest.output if dest.output is not edzed.UNDEF else 'UNDEF'
+            try:
+                edzed.ExtEvent(dest).send(7)
+                obs['follow'] = dest.output
+            except Exception as err:             # noqa
+                obs['follow'] = type(err).__name__
+            try:
+                await circuit.shutdown()
+            except BaseException:                # noqa
+                pass
+        try:
+            vloop.run_virtual(main, wall_limit_s=10.0)
+        except BaseException as err:             # noqa
+            obs['harness'] = repr(err)[:200]
+        finally:
+            edzed.reset_circuit()
+        run.add_case(dict(no_event_during_init=name), True)
+        run.count('no_event_during_init')
+        ok = (obs['harness'] is None and obs['started'] is True and obs['error'] is None
+              and obs['output'] == 5 and obs['follow'] == 7)
+        run.add_obligation(ok)
+        if not ok:
+            run.violation('monitor', dict(case=dict(no_event_during_init=name), observed=obs),
+                          f"Input('first', initdef=0, on_output=Event('dest', EventCond('put', None))) created before "
+                          f"Input('dest', initdef=5, persistent={pers}, sync_state={sync}): the conditional event "
+                          f"resolves to 'no event' while 'dest' is not initialised yet; observed started={obs['started']}, "
+                          f"Circuit.error={obs['error']}, output of 'dest' {obs['output']!r} (expected 5), a later put 7 "
+                          f"-> {obs['follow']!r}; harness: {obs['harness']}",
+                          clause='no_event_during_init:' + name, concrete=True)
+
+
 def check_fsm_guard(run):
     """The documented exception of the guard - one chained FSM transition - and its limits:
     an exit action that sends an event to its own FSM must be refused.  Uses the FSM model and
@@ -491,6 +547,9 @@ def replay(run, path):
         from . import c03
         return common.std_replay(run, c03.C03(), path)
     _, case = common.load_replay_case(path)
+    if isinstance(case, dict) and 'no_event_during_init' in case:
+        return common.directed_replay(run, path,
+                                      lambda: check_no_event_during_init(run, case['no_event_during_init']))
     if isinstance(case, dict) and 'library_wrong' in case:
         return common.directed_replay(run, path, lambda: check_library_wrong_params(run, case['library_wrong']))
     if isinstance(case, dict) and 'library_loop' in case:
